@@ -1,5 +1,6 @@
 import ScnrVerif.Model.Iter
 import ScnrVerif.Model.SpecFind
+import ScnrVerif.Model.SpecIter
 /-!
 # Line-protocol driver for the executable model (`lake exe scnr_model < case.in`)
 
@@ -13,6 +14,15 @@ inductive Target where
   | mode (m : Nat)
   | la (m : Nat) (tid : Nat)
 
+/-- Independent specification state of an iterator: mode, cursor and the largest consumed offset.
+    `known = false` after an operation whose effect the properties leave open. -/
+structure SpecIt where
+  mode : Nat := 0
+  pos : Nat := 0
+  frontier : Nat := 0
+  known : Bool := true
+deriving Inhabited
+
 structure DState where
   tables : Array (List (Nat × Nat)) := #[]
   modes : Array ModeDfa := #[]
@@ -23,6 +33,7 @@ structure DState where
   /-- per mode: byte position ↦ (tid, len) -/
   table : Array (Array (Option (Nat × Nat))) := #[]
   iters : Array Iter := #[]
+  specs : Array SpecIt := #[]
   /-- the last command line (for spec verdicts on the real result that follows as `expect`) -/
   last : List String := []
 
@@ -82,12 +93,33 @@ def parseFindItem (s : String) : Option (Nat × Option (Nat × Nat)) :=
     | _, _, _ => none
   | _ => none
 
+def parseTok (s : String) : Option Tok :=
+  match (s.splitOn ":").map String.toNat? with
+  | [some t, some a, some b] => some ⟨t, a, b⟩
+  | _ => none
+
+def parsePeek (ws : List String) : Option Peek :=
+  match ws with
+  | "peek" :: "matches" :: r => some (.matches (r.filterMap parseTok))
+  | "peek" :: "end" :: r => some (.reachedEnd (r.filterMap parseTok))
+  | "peek" :: "switch" :: m :: r => m.toNat?.map fun m => .modeSwitch (r.filterMap parseTok) m
+  | ["peek", "notfound"] => some .notFound
+  | _ => none
+
 /-- Verdict of the executable specification on the result of the real crate (`expect` line)
-    for the command that preceded it. -/
-def specVerdict (st : DState) (real : List String) : Option String :=
+    for the command that preceded it; also advances the specification state of the iterator. -/
+def specVerdict (st : DState) (real : List String) : Array SpecIt × Option String :=
+  let sp := st.specs
+  let total := bytesLen st.input
+  let specTokens (s : SpecIt) : List Tok :=
+    scanFrom st.cfgL st.finder s.mode (dropBytes s.pos st.input) s.pos
   match st.last, real with
+  | _, ["panic"] => (sp, some "S FAIL the real crate panicked in this call")
+  | _, ["findpanic"] => (sp, some "S FAIL the real crate panicked in find_from")
+  | _, ["buildpanic"] => (sp, some "S FAIL the real crate panicked while building the scanner")
+  | _, ["runaway"] => (sp, some "S FAIL the real iterator yields more tokens than the input has characters")
   | ["findall", m], "findall" :: items =>
-    match m.toNat? with
+    (sp, match m.toNat? with
     | none => none
     | some m =>
       match st.modes[m]? with
@@ -101,14 +133,122 @@ def specVerdict (st : DState) (real : List String) : Option String :=
         match bad with
         | [] => some "S ok"
         | ((p, _), (_, r)) :: _ =>
-          some s!"S FAIL findall mode {m} at byte {p}: real result {r} is not the best candidate of the trailing-context rule"
-  | ["findall", _], _ => some "S FAIL findall: real crate panicked or gave no table"
-  | _, _ => none
+          some s!"S FAIL findall mode {m} at byte {p}: real result {r} is not the best candidate of the trailing-context rule")
+  | ["findall", _], _ => (sp, some "S FAIL findall: real crate panicked or gave no table")
+  | ["modename", i], _ =>
+    (sp, match i.toNat? with
+      | some i =>
+        let exp := match modeName st.cfgL i with
+          | some n => "name" :: n.map toString
+          | none => ["name", "none"]
+        some (if real == exp then "S ok" else "S FAIL mode_name")
+      | none => none)
+  | [op, k], _ =>
+    match k.toNat? with
+    | none => (sp, none)
+    | some k =>
+      let s := sp.getD k default
+      if op == "next" || op == "nextp" then
+        if !s.known then
+          -- no verdict; resynchronise cursor and mode on the real result
+          match real with
+          | [_, t, _, e] | [_, t, _, e, _, _, _, _] =>
+            match t.toNat?, e.toNat? with
+            | some t, some e =>
+              (sp.set! k { s with pos := e, known := true, frontier := s.frontier,
+                                  mode := (hasTransition (modeTrans st.cfgL s.mode) t).getD s.mode }, none)
+            | _, _ => (sp, none)
+          | ["none"] => (sp.set! k { s with pos := total, known := true }, none)
+          | _ => (sp, none)
+        else
+        let exp := specTokens s
+        match real, exp with
+        | ["none"], [] =>
+          (sp.set! k { s with pos := total, frontier := if s.pos ≤ s.frontier then total else s.frontier }, some "S ok")
+        | "tok" :: r, t :: _ =>
+          let ok := r.map String.toNat? == [some t.tid, some t.start, some t.stop]
+          let s' := { s with pos := t.stop,
+                             frontier := if s.pos ≤ s.frontier then max s.frontier t.stop else s.frontier,
+                             mode := (hasTransition (modeTrans st.cfgL s.mode) t.tid).getD s.mode }
+          (sp.set! k s', some (if ok then "S ok" else s!"S FAIL next: expected token {t.tid} {t.start} {t.stop} of the reference scan from byte {s.pos} in mode {s.mode}"))
+        | "tokp" :: r, t :: _ =>
+          let ns := r.map String.toNat?
+          let s' := { s with pos := t.stop,
+                             frontier := if s.pos ≤ s.frontier then max s.frontier t.stop else s.frontier,
+                             mode := (hasTransition (modeTrans st.cfgL s.mode) t.tid).getD s.mode }
+          let judge := decide (t.stop ≤ s'.frontier)
+          match ns with
+          | [some a, some b, some c, some l1, some c1, some l2, some c2] =>
+            if (a, b, c) != (t.tid, t.start, t.stop) then
+              (sp.set! k s', some s!"S FAIL next: expected token {t.tid} {t.start} {t.stop} of the reference scan from byte {s.pos} in mode {s.mode}")
+            else if !judge then (sp.set! k s', some "S ok")
+            else if !positionOK st.input b true (l1, c1) then
+              (sp.set! k s', some s!"S FAIL position of token start {b}: reported {l1}:{c1}, true {(trueLineCol st.input b).1}:{(trueLineCol st.input b).2}")
+            else if !positionOK st.input c false (l2, c2) then
+              (sp.set! k s', some s!"S FAIL position of token end {c}: reported {l2}:{c2}, true {(trueLineCol st.input c).1}:{(trueLineCol st.input c).2}")
+            else (sp.set! k s', some "S ok")
+          | _ => (sp.set! k s', some "S FAIL next: malformed result")
+        | _, [] => (sp, some s!"S FAIL next: real result {real} but the reference scan from byte {s.pos} in mode {s.mode} has no more tokens")
+        | _, t :: _ => (sp, some s!"S FAIL next: real result {real}, expected token {t.tid} {t.start} {t.stop}")
+      else if op == "curmode" then
+        if !s.known then (sp, none) else
+        (sp, some (if real == ["mode", toString s.mode] then "S ok" else s!"S FAIL current_mode: expected {s.mode}"))
+      else (sp, none)
+  | ["peek", k, n], _ =>
+    match k.toNat?, n.toNat? with
+    | some k, some n =>
+      let s := sp.getD k default
+      if !s.known then (sp, none) else
+      let exp := peekSpec st.cfgL st.finder s.mode (dropBytes s.pos st.input) s.pos n
+      (sp, some (if parsePeek real == some exp then "S ok"
+                 else s!"S FAIL peek_n({n}) at byte {s.pos} in mode {s.mode}: real {real} differs from the next tokens of the reference scan"))
+    | _, _ => (sp, none)
+  | ["pos", k, o], ["pos", l, c] =>
+    match k.toNat?, o.toNat?, l.toNat?, c.toNat? with
+    | some k, some o, some l, some c =>
+      let s := sp.getD k default
+      if o > s.frontier then (sp, none) else
+      (sp, some (if positionOK st.input o (decide (o < s.frontier)) (l, c) then "S ok"
+                 else s!"S FAIL position({o}): reported {l}:{c}, true {(trueLineCol st.input o).1}:{(trueLineCol st.input o).2} (frontier {s.frontier})"))
+    | _, _, _, _ => (sp, none)
+  | _, _ => (sp, none)
+
+/-- Effect of a command on the specification state (commands without observable result). -/
+def specCommand (st : DState) (ws : List String) : Array SpecIt :=
+  let sp := st.specs
+  let total := bytesLen st.input
+  match ws with
+  | ["new", k] =>
+    match k.toNat? with
+    | some k => (ensure sp k default).set! k {}
+    | none => sp
+  | ["setoff", k, o] =>
+    match k.toNat?, o.toNat? with
+    | some k, some o =>
+      let s := sp.getD k default
+      sp.set! k { s with pos := min o total, known := true }
+    | _, _ => sp
+  | ["setmode", k, m] =>
+    match k.toNat?, m.toNat? with
+    | some k, some m => sp.set! k { sp.getD k default with mode := m }
+    | _, _ => sp
+  | ["adv", k, p] =>
+    match k.toNat?, p.toNat? with
+    | some k, some p =>
+      let s := sp.getD k default
+      -- specified only for a position beyond the cursor on a character boundary (C10)
+      if s.known && p > s.pos && p ≤ total && isBoundary st.input p then
+        sp.set! k { s with pos := p, frontier := if s.pos ≤ s.frontier then max s.frontier p else s.frontier }
+      else sp.set! k { s with known := false }
+    | _, _ => sp
+  | _ => sp
 
 def step (st : DState) (line : String) : DState × Option String :=
   match line.trimAscii.toString.splitOn " " with
   | "case" :: r => (st, some ("case " ++ " ".intercalate r))
-  | "expect" :: r => (st, specVerdict st r)
+  | "expect" :: r =>
+    let (sp, v) := specVerdict st r
+    ({ st with specs := sp }, v)
   | "#" :: _ => (st, none)
   | ["scanner"] => ({}, none)
   | "class" :: id :: r =>
@@ -144,7 +284,7 @@ def step (st : DState) (line : String) : DState × Option String :=
     match e.toNat?, t.toNat? with
     | some e, some t => (updTarget st fun A => addState A (e != 0) t (pairs (nats r)), none)
     | _, _ => (st, some "bad-op")
-  | "input" :: r => ({ st with input := nats r, iters := #[], table := #[] }, none)
+  | "input" :: r => ({ st with input := nats r, iters := #[], specs := #[], table := #[] }, none)
   | ["finder", "model"] => ({ st with useTable := false }, none)
   | ["finder", "table"] => ({ st with useTable := true }, none)
   | ["tbl", m, p, t, l] =>
@@ -247,7 +387,7 @@ partial def loop (h : IO.FS.Stream) (out : IO.FS.Stream) (st : DState) : IO Unit
   let st' := match ws with
     | "expect" :: _ => st'
     | "#" :: _ => st'
-    | _ => { st' with last := ws }
+    | _ => { st' with last := ws, specs := specCommand st' ws }
   loop h out st'
 
 def main : IO Unit := do
